@@ -138,6 +138,34 @@ def h_core_roundtrip_q1(ctx, r1, r2):
     ctx.claim('roundtrip', ctx.all_eq(G2, G))
 
 
+def h_qtt_cap(ctx, r, cap, rows):
+    """core_tt_to_qtt with the REAL matrix_svd on a sparse core (r, 4, r) whose
+    unfoldings are generalised permutation matrices (closed-form eigh), symbolic
+    positive weights, accuracy e and a concrete rank cap: every bond created
+    inside the mode respects the cap, the outer bonds keep the TT-ranks, and
+    without truncation the core is reproduced."""
+    G = zeros(ctx, (r, 4, r))
+    w = vec(ctx, 'w', r)
+    A = np.reshape(G, (-1, r), order='F').copy()
+    for c in range(r):
+        ctx.assume(ctx.gt(w[c], 0))
+        A[rows[c], c] = w[c]
+    G = np.reshape(A, (r, 4, r), order='F')
+    G0 = G.copy()
+    e = ctx.real('e')
+    ctx.assume(ctx.gt(e, 0))
+    Q = teneva.core_tt_to_qtt(G, e, cap)
+    ctx.claim('two_qtt_cores', len(Q) == 2 and all(q.shape[1] == 2 for q in Q))
+    ctx.claim('outer_bonds_keep_tt_ranks', Q[0].shape[0] == r and Q[-1].shape[2] == r)
+    ctx.claim('inner_bond_le_cap', Q[0].shape[2] <= max(1, cap))
+    ctx.claim('finite', finite(ctx, Q))
+    G2 = teneva.core_qtt_to_tt(Q)
+    wmin2 = ctx.min_([x * x for x in w])
+    if cap >= 2 * r:
+        ctx.claim('reproduced_when_nothing_truncated', ctx.any_([ctx.ge(e * e, wmin2), ctx.all_eq(G2, G0)]))
+    ctx.claim('argument_untouched', ctx.all_eq(G, G0))
+
+
 def instances(tier):
     out = []
     quick = tier == 'quick'
@@ -151,6 +179,8 @@ def instances(tier):
         out.append({'func': 'h_convert', 'params': {'d': d, 'q': q, 'r': r}})
     for r1, r2 in [(1, 2), (2, 2), (1, 1)]:
         out.append({'func': 'h_core_roundtrip_q1', 'params': {'r1': r1, 'r2': r2}})
+    for r, cap, rows in [(2, 1, [0, 5]), (2, 2, [0, 5]), (2, 4, [1, 6]), (1, 1, [2]), (2, 3, [3, 4])]:
+        out.append({'func': 'h_qtt_cap', 'params': {'r': r, 'cap': cap, 'rows': rows}, 'opts': {'symbolic_signs': False}})
     return out
 
 
@@ -160,7 +190,7 @@ BOUNDS = {
              'q=1 cores with the real matrix_svd (eigh parametrised)',
     'thorough': 'adds q up to 6 for index maps, (d,q,r) up to (2,3,2),(3,2,2),(2,2,3)',
 }
-OUTSIDE = ('accuracy-e truncation and rank caps inside a mode for generic cores (chains of factorisations of derived matrices; the '
+OUTSIDE = ('non-power-of-two rejection is checked for the sizes 3 and 6 only (a float test on log2(n) cannot be encoded); accuracy-e truncation and rank caps inside a mode for generic cores (chains of factorisations of derived matrices; the '
            'matrix-level rank/accuracy contract is C03); larger q*d')
 ASSUMPTIONS = ['np.unravel_index / ravel_multi_index modelled by div/mod on solver integers',
                'matrix_svd replaced by its exact-factorisation contract (identity factor) for q >= 2', 'exact real arithmetic']
